@@ -66,7 +66,7 @@ def check(run):
                     desc = "Value::from(%s %s) is %s: not representable, and From cannot report it" % (rec["ty"], rec.get("text", rec["class"]), "Number(%s)" % ef.show(rec["actual"]) if rec["actual"][0] == "num" else rec["actual"][0])
                 else:
                     key = "C17/%s/%s" % (rec["kind"], rec.get("ty", rec.get("acc", "")))
-                    desc = "conversion %s: engine result %s is not what the specification allows" % (json.dumps({k: v for k, v in rec.items() if k != "actual"})[:300], json.dumps(rec["actual"])[:200])
+                    desc = "conversion %s: engine result %s is not what the specification allows" % (json.dumps({k: v for k, v in rec.items() if k != "actual"})[:300], json.dumps(rec.get("actual", rec.get("back")))[:200])
                 run.violation(key, desc, {"family": "conv-trace", "record": rec, "class": p["class"]})
     run.traces += len(recs)
     run.evaluations += len(recs)
